@@ -217,7 +217,10 @@ Proof.
   intro H. apply Nat.eqb_eq in H. subst. auto.
 Qed.
 
-Ltac unfold_step := unfold step_or_stay, step; cbn [fst snd].
+Ltac norm :=
+  unfold set_thread, set_obj, set_chans, set_threads, set_objs, log, set_wg, spawn, do_panic, returns, with_pc;
+  cbn [c_objs c_chans c_wg c_threads c_trace c_panic th_prog th_pc th_rets app fst snd].
+Ltac unfold_step := unfold step_or_stay; cbn [fst snd]; unfold step; norm.
 
 (* Unsub(nil): one step, returns ErrSubscriptionNotInitalized, nothing else changes. *)
 Lemma unsub_nil_step c t th o rest ch :
@@ -244,10 +247,10 @@ Proof.
   assert (Lo : o < length (c_objs c)) by (eapply nth_error_some_lt; eauto).
   destruct (sub_index_spec (o_subs ob) sub) as [[_ E]|(n & _ & Hnth & _)];
     [|exfalso; apply Hn; eapply nth_error_In; eauto].
-  simpl. unfold_step. rewrite Hp, Ht, Hpc, Hpr. cbn [step_call]. rewrite Ho, Hl, E. cbn.
-  rewrite Hp, nth_error_upd_eq by exact Lt. cbn.
-  rewrite nth_error_upd_eq by exact Lo. unfold set_thread, set_obj, set_threads, set_objs, returns. cbn.
-  rewrite !upd_upd. destruct c; cbn in *; subst. reflexivity.
+  cbn [run]. unfold_step. rewrite Hp, Ht, Hpc, Hpr. cbn [step_call]. rewrite Ho, Hl, E. cbn [Z.eqb Pos.eqb]. norm.
+  unfold_step. rewrite Hp, nth_error_upd_eq by exact Lt. norm.
+  rewrite nth_error_upd_eq by exact Lo. norm.
+  rewrite !upd_upd. unfold set_wr. cbn. reflexivity.
 Qed.
 
 (* Unsub(sub) of a subscribed, open channel: three steps (Lock + subIndex;
@@ -271,10 +274,11 @@ Proof.
   assert (Lo : o < length (c_objs c)) by (eapply nth_error_some_lt; eauto).
   destruct (sub_index_spec (o_subs ob) sub) as [[F _]|(n & E & Hnth & _)]; [contradiction|].
   assert (En : (Z.of_nat n =? -1)%Z = false) by (apply Z.eqb_neq; lia).
-  simpl. unfold_step. rewrite Hp, Ht, Hpc, Hpr. cbn [step_call]. rewrite Ho, Hl, E, En, Nat2Z.id. cbn.
-  rewrite Hp, nth_error_upd_eq by exact Lt. cbn.
-  rewrite nth_error_upd_eq by exact Lo. cbn. rewrite Hnth. unfold close_chan. cbn. rewrite Hc, Hop. cbn.
-  rewrite Hp, upd_length, !upd_upd, nth_error_upd_eq by exact Lt. cbn.
-  rewrite nth_error_upd_eq by exact Lo. unfold set_thread, set_obj, set_threads, set_objs, returns, set_wr, set_subs. cbn.
-  rewrite !upd_upd, (splice_is_remove _ _ _ Hnth ND). reflexivity.
+  cbn [run]. unfold_step. rewrite Hp, Ht, Hpc, Hpr. cbn [step_call]. rewrite Ho, Hl, E, En, Nat2Z.id. norm.
+  unfold_step. rewrite Hp, nth_error_upd_eq by exact Lt. norm.
+  rewrite nth_error_upd_eq by exact Lo. unfold set_wr at 1. cbn [o_subs]. rewrite Hnth.
+  unfold close_chan. norm. rewrite Hc, Hop. norm. rewrite Hp.
+  unfold_step. rewrite Hp, upd_upd, nth_error_upd_eq by exact Lt. norm.
+  rewrite upd_upd, nth_error_upd_eq by exact Lo. norm.
+  rewrite !upd_upd. unfold set_wr, set_subs. cbn. rewrite (splice_is_remove _ _ _ Hnth ND). reflexivity.
 Qed.
